@@ -340,6 +340,20 @@ class SessionSem(Semantics):
             return path.tags.get((body.id, l)) if l is not None else None
 
         short = strip_generics(name)
+        if short == 'core::ops::try_trait::Try::branch' and dk is not None and arg_local(0) is not None:
+            # `?`: what is inside Ok(..) / Some(..) is what is inside Continue(..)
+            src = (body.id, arg_local(0))
+            keep_t = {kk[2:]: vv for kk, vv in path.tags.items() if len(kk) >= 3 and kk[:2] == src and kk[2] == 'in'}
+            keep_m = {kk[2:]: vv for kk, vv in path.memo.items() if isinstance(kk, tuple) and len(kk) >= 3 and kk[:2] == src and kk[2] == 'in'}
+            clear_dest()
+            for d_ in (path.tags, path.memo):
+                for kk in [kk for kk in d_ if isinstance(kk, tuple) and len(kk) > 2 and kk[:2] == dk]:
+                    del d_[kk]
+            for suf, vv in keep_t.items():
+                path.tags[dk + suf] = vv
+            for suf, vv in keep_m.items():
+                path.memo[dk + suf] = vv
+            return [('next', path)]
         # --- the storage backend --------------------------------------------------------------------------------
         if short.startswith(STORE):
             meth = short[len(STORE):]
@@ -632,6 +646,9 @@ class SessionSem(Semantics):
                                 t = 'val:' + short.split('::')[-1]
                         if t:
                             p.tags[dk] = t
+                        for kk, vv in list(p.tags.items()):          # what the helper put inside the Ok(..) / Some(..) it returns
+                            if len(kk) >= 3 and kk[:2] == (cb.id, 0) and kk[2] == 'in':
+                                p.tags[dk + kk[2:]] = vv
                         r = interp.root(p, cb, 0)
                         v, _, _ = interp.bool_value(p, cb, 0)
                         if v is not None and body.locals[d['l']] == 'bool':
@@ -708,7 +725,7 @@ class TaggingInterp(Interp):
                         path.tags[k] = 'f:cur'
                 # the payload of a tagged Option / Result, an element of a tagged tuple
                 base = (body.id, pl['l'])
-                if pp in (['d:Some', 'f:0'], ['d:Ok', 'f:0'], ['d:Err', 'f:0']):
+                if pp in (['d:Some', 'f:0'], ['d:Ok', 'f:0'], ['d:Err', 'f:0'], ['d:Continue', 'f:0']):
                     t = path.tags.get(base + ('in',))
                     if t is not None:
                         path.tags[k] = t
